@@ -1,7 +1,25 @@
-(* C15 — slop only relaxes.  No theorem about the span machine is closed; this file records concrete
-   evaluations of the line-level model (Span/Span.v) against the clause oracle (Span/Span_Spec.v). *)
-From SA Require Import Base.Prelude Index.Index Span.Span Span.Span_Spec.
+(* C15 — slop only relaxes.  Statement-only file.  Model: Span/Span.v (line-level model of _intersect_all and the
+   repaired _span_freqs); proofs: Span/Span_Proofs.v.
+   PROVED here (closed, every corpus within the limits, every batch size, every phrase, every slop):
+     - the result has one entry per row (entries are naturals: non-negative whole numbers by type);
+     - every matching document contains each of the phrase's terms.
+   NOT proved (decided on generated inputs by the clause oracle Span/Span_Spec.v on model and implementation):
+     - a document containing the phrase exactly still matches with slop >= 1;
+     - distinct terms, length + slop <= 18: an in-order window of length + slop tokens matches. *)
+From SA Require Import Base.Prelude Index.Index Index.Index_Spec Span.Span Span.Span_Spec Span.Span_Proofs.
 Open Scope N_scope.
+
+Theorem C15_one_entry_per_row_partial : forall ix ts slop v,
+  slop_freqs ix ts slop = AOk v -> length v = length (ix_lens ix).
+Proof. exact slop_freqs_length. Qed.
+Print Assumptions C15_one_entry_per_row_partial.
+
+Theorem C15_match_contains_every_term_partial : forall docs bs ix ts slop v d,
+  wf_docs docs -> index false bs docs = AOk ix -> slop_freqs ix ts slop = AOk v ->
+  (d < length v)%nat -> nth d v 0 <> 0 -> forall t, In t ts -> In t (nth d docs []).
+Proof. exact slop_match_has_all_terms. Qed.
+Print Assumptions C15_match_contains_every_term_partial.
+
 Example C15_model_example :
   match index false 100 [[1;9;2;9;9;3];[1;2;3];[3;2;1];[1;2];[]] with
   | AOk ix => slop_freqs ix [1;2;3] 3 = AOk [2;2;4;0;0] /\ slop_freqs ix [1;2] 2 = AOk [1;1;2;1;0]
